@@ -1062,6 +1062,61 @@ class Ceremony:
                 psbtmap.set_value(om, b"\x01", ws2)
             if red2 is not None:
                 psbtmap.set_value(om, b"\x00", red2)
+        elif kind == "malformed_multisig_change":
+            # the change output commits to a script that merely resembles the wallet's m-of-n multisig and contains the genuine change
+            # keys (honest derivation records): wrong key count opcode, an extra foreign key, a dropped threshold, trailing foreign multisig
+            if ch_pos is None or s.n < 2 or s.kind not in ("p2sh", "p2wsh"):
+                return None
+            pks = sorted(s.change["pks"]) if False else list(s.change["pks"])
+            good = tm.multisig_script(s.m, pks)
+            v = a % 5
+            opn = lambda x: bytes([0x50 + x])
+            keys_b = b"".join(tm.push(k_) for k_ in pks)
+            if v == 0:
+                script = opn(s.m) + keys_b + opn(s.n + 1) + b"\xae"  # n opcode one too large (consensus: m taken from the stack)
+            elif v == 1:
+                script = opn(s.m) + keys_b + tm.push(evil[0]) + opn(s.n) + b"\xae"  # a foreign key more than OP_n says
+            elif v == 2:
+                script = opn(s.m) + b"\x75" + opn(1) + keys_b + opn(s.n) + b"\xae"  # OP_m OP_DROP OP_1 ...: really 1-of-n
+            elif v == 3:
+                script = opn(s.m) + keys_b + b"\x6d" * ((s.n + 2) // 2) + b"\x51"  # keys dropped again, OP_1 left: anyone can spend
+                script += b"" if True else b""
+                script = script + b"\x51" + tm.push(evil[0]) + b"\x51\xae"
+            else:
+                script = opn(s.m) + keys_b[: len(keys_b) - 34] + tm.push(evil[0]) + opn(s.n) + b"\xae" if s.n >= 2 else good
+            if script == good:
+                return None
+            if s.kind == "p2wsh":
+                spk2, red2, ws2 = tm.spk_p2wsh(tm.sha256(script)), None, script
+            else:
+                spk2, red2, ws2 = tm.spk_p2sh(tm.hash160(script)), script, None
+            tx["outs"][ch_pos]["spk"] = spk2
+            put_tx()
+            om = pm["outputs"][ch_pos]
+            if ws2 is not None:
+                psbtmap.set_value(om, b"\x01", ws2)
+            if red2 is not None:
+                psbtmap.set_value(om, b"\x00", red2)
+            if v == 4:
+                # the derivation record of the replaced key would name a key that is not in the script: drop it
+                last = pks[-1]
+                pm["outputs"][ch_pos] = [kv for kv in om if kv[0] != b"\x02" + last]
+        elif kind == "foreign_redeem_on_p2wsh_input":
+            # a p2wsh input documented by its witness UTXO, with an unrelated redeem script attached and no witness script
+            if s.kind != "p2wsh":
+                return None
+            k_in = a % len(pm["inputs"])
+            im = pm["inputs"][k_in]
+            other = tm.multisig_script(s.m, evil[: s.n])
+            im2 = [kv for kv in im if kv[0][:1] not in (b"\x04", b"\x05")]
+            im2.append((b"\x04", other))
+            if a % 2:
+                # derivations replaced by ones for the foreign script's keys (claimed under the cosigners' fingerprints)
+                im2 = [kv for kv in im2 if kv[0][:1] != b"\x06"]
+                for pk, c in zip(evil, s.cos):
+                    acc = secp.parse_path(c.account_path)
+                    im2.append((b"\x06" + pk, c.fingerprint + b"".join(i.to_bytes(4, "little") for i in acc + [0, 1])))
+            pm["inputs"][k_in] = im2
         elif kind == "second_change":
             if ch_pos is None:
                 return None
@@ -1261,7 +1316,7 @@ def execute(plan, prop, trace):
 
 # ------------------------------------------------------------------------------------------------ generation
 
-TAMPER_KINDS = ["weak_quorum_dust_input", "weak_quorum_dust_input", "swap_change_spk", "flip_change_spk_byte", "foreign_script", "foreign_fingerprint", "wrong_path", "one_cosigner_keys", "one_cosigner_keys_spoofed_fps", "utxo_amount", "other_prev_tx", "changed_quorum", "second_change",
+TAMPER_KINDS = ["malformed_multisig_change", "malformed_multisig_change", "foreign_redeem_on_p2wsh_input", "weak_quorum_dust_input", "weak_quorum_dust_input", "swap_change_spk", "flip_change_spk_byte", "foreign_script", "foreign_fingerprint", "wrong_path", "one_cosigner_keys", "one_cosigner_keys_spoofed_fps", "utxo_amount", "other_prev_tx", "changed_quorum", "second_change",
                 "redeem_for_other_input", "forge_change", "forge_change", "forge_change", "nonwitness_utxo_foreign_script", "both_utxo_records_disagree", "swap_change_spk_type", "swap_change_spk_type", "p2sh_input_as_witness_utxo"]
 
 
@@ -1440,14 +1495,14 @@ def enumerate_plans(tier, prop, seed):
         # the catalogue against both wallet types
         for kind in ("p2sh", "p2wsh"):
             for tk in [None] + TAMPER_KINDS:
-                for rep in range((1 if tier == "quick" else 4) * (3 if tk == "weak_quorum_dust_input" else 1)):
+                for rep in range((1 if tier == "quick" else 4) * (3 if tk == "weak_quorum_dust_input" else 5 if tk == "malformed_multisig_change" else 2 if tk == "foreign_redeem_on_p2wsh_input" else 1)):
                     plan = base(kind, r.choice([1, 2]) if tk != "weak_quorum_dust_input" else 2, 2 if tier == "quick" else r.choice([2, 3]))
                     plan["creator"] = {"segwit_flag": False, "xpubs": rep % 2 == 1, "unknown": False, "helper": kind == "p2sh" and rep % 2 == 0}
                     plan["sign_method"] = "keys"
                     plan["topology"] = "review"
                     st = {"op": "send", "src": "C", "dst": "S0"}
                     if tk:
-                        st["tamper"] = {"kind": tk, "a": r.randrange(10000) if tk != "weak_quorum_dust_input" else 3 * r.randrange(3000) + rep % 3}
+                        st["tamper"] = {"kind": tk, "a": (5 * r.randrange(2000) + rep % 5) if tk == "malformed_multisig_change" else (2 * r.randrange(5000) + rep % 2) if tk == "foreign_redeem_on_p2wsh_input" else r.randrange(10000) if tk != "weak_quorum_dust_input" else 3 * r.randrange(3000) + rep % 3}
                         plan["tamper"] = st["tamper"]
                     plan["steps"] = [st]
                     plan["enum"] = "catalogue"
